@@ -11,7 +11,7 @@ a new storage from sums over the partition (D).
 import ast
 import itertools
 
-from ..loader import AnalysisError, norm, walk_no_nested, call_name, const_value
+from ..loader import AnalysisError, norm, walk_no_nested, call_name, const_value, protocol_body
 
 T2 = "quantarhei.spectroscopy.twod2"
 RES = ["off", "signals", "processes", "types", "pathways"]
@@ -48,6 +48,13 @@ def check(run, prog, tier):
     rule_E(run, prog, m)
     rule_F(run, prog, m)
     rule_G(run, prog, m)
+    run.rule("C19-I", "the storage setter refuses an array that does not fit the axes before every store, at every "
+                      "resolution; no refusal of the setter is unreachable", minimum=8)
+    run.rule("C19-J", "every comparison of the storage resolution with a constant names one of the five resolutions", minimum=20)
+    run.rule("C19-K", "views are handed out under their own type; adding data or taking a view restores the data flag", minimum=3)
+    rule_I(run, prog, m)
+    rule_J(run, prog, m)
+    rule_K(run, prog, m)
     run.extra["exhaustive"] = True
 
 
@@ -59,7 +66,7 @@ def rule_G(run, prog, m):
     created from the response must get a copy, not a slice view, of the stored array."""
     rid = "C19-G"
     cls = m.classes["TwoDSpectrumBase"]
-    f = cls.methods["_add_data"]
+    f, _ = protocol_body(prog, cls, "_add_data")
     par = f.node.args.args[1].arg
     stores = [n for n in walk_no_nested(f.node) if isinstance(n, ast.Assign) and norm(n.targets[0]) == "self.d__data"]
     if len(stores) < 6:
@@ -255,6 +262,192 @@ def rule_E(run, prog, m):
     if n_sites < 3:
         raise AnalysisError("only %d writes of storage_resolution found (3 confirmed)" % n_sites)
 
+
+
+def _guards_before(pm, fn_node, st):
+    """Tests that must have been passed to reach statement st: `if T: raise` statements earlier in an enclosing block
+    (reached only when T is false) - the refusals on the path to st."""
+    out = []
+    node = st
+    while node is not None and node is not fn_node:
+        par = pm.get(node)
+        for fld in ("body", "orelse", "finalbody"):
+            blk = getattr(par, fld, None)
+            if isinstance(blk, list) and node in blk:
+                for prev in blk[:blk.index(node)]:
+                    if isinstance(prev, ast.If) and prev.body and isinstance(prev.body[-1], ast.Raise) and not prev.orelse:
+                        out.append(prev)
+        node = par
+    return out
+
+
+def _unreachable(fn_node):
+    """statements that follow a raise / return / continue / break in the same block"""
+    dead = []
+    for n in ast.walk(fn_node):
+        for fld in ("body", "orelse", "finalbody"):
+            blk = getattr(n, fld, None)
+            if isinstance(blk, list):
+                for k, st in enumerate(blk[:-1]):
+                    if isinstance(st, (ast.Raise, ast.Return, ast.Continue, ast.Break)):
+                        dead.extend(blk[k + 1:])
+                        break
+    return dead
+
+
+def rule_I(run, prog, m):
+    """'Inadmissible operations are refused without changing the stored data': an array that does not have the shape of
+    the axes cannot be added to the others (the total and every reduction of the resolution fail from then on) or is
+    broadcast into them.  Every store of the assigned value into the storage, at every resolution, is therefore reached
+    only past a refusal that compares value.shape with the lengths of the two axes; and no refusal of the setter sits
+    behind a raise where it cannot run."""
+    from ..loader import parents_map
+    rid = "C19-I"
+    fac = m.functions["twodspectrum_dictionary"]
+    setters = [n for n in ast.walk(fac.node) if isinstance(n, ast.FunctionDef) and any(norm(d).endswith(".setter") for d in n.decorator_list)]
+    if len(setters) != 1:
+        raise AnalysisError("twodspectrum_dictionary: setter not found")
+    setter = setters[0]
+    val = setter.args.args[1].arg
+    pm = parents_map(setter)
+    stores = [n for n in ast.walk(setter) if isinstance(n, ast.Assign) and isinstance(n.targets[0], ast.Subscript)
+              and norm(n.value) == val]
+    if len(stores) < 5:
+        raise AnalysisError("setter: %d stores of the assigned value (5 confirmed)" % len(stores))
+    dead = _unreachable(setter)
+    dead_ids = {id(x) for d in dead for x in ast.walk(d)}
+    for st in stores:
+        guards = [g for g in _guards_before(pm, setter, st) if id(g) not in dead_ids]
+        shape = [g for g in guards if (val + ".shape") in norm(g.test) and "xaxis.length" in norm(g.test) and "yaxis.length" in norm(g.test)]
+        run.obligation(rid, "twod2.twodspectrum_dictionary.setter", bool(shape), key="shape-refusal:" + norm(st.targets[0])[:40],
+                       message="the setter stores the assigned array as %s without a reachable refusal that compares its shape "
+                               "with the axes: an array that does not fit is stored next to the others and the total can no "
+                               "longer be formed (or it is broadcast into it)" % norm(st.targets[0]),
+                       loc=fac.loc(st), sample={"store": norm(st)})
+    refusals = [n for n in ast.walk(setter) if isinstance(n, ast.If) and n.body and isinstance(n.body[-1], ast.Raise)]
+    for r_ in refusals:
+        run.obligation(rid, "twod2.twodspectrum_dictionary.setter", id(r_) not in dead_ids, key="refusal-reachable:" + norm(r_.test)[:50],
+                       message="the refusal 'if %s: raise' of the setter follows a raise in the same block and can never run" % norm(r_.test)[:80],
+                       loc=fac.loc(r_), sample={"test": norm(r_.test)[:80]})
+
+
+def rule_J(run, prog, m):
+    """The storage resolution is one of the five names of _resolutions.  A branch that compares the resolution (the
+    attribute or a parameter called resolution) with any other constant - e.g. with the name of the total signal - is
+    never taken, and the data of that resolution are silently left out (trim_to trimmed the axes and not the array)."""
+    rid = "C19-J"
+    def resolve(mod, name, depth=0):
+        """string / list value of a module-level name, following assignments and imports; None when the name is not
+        module-level; AnalysisError when it is and cannot be resolved"""
+        if depth > 4:
+            raise AnalysisError("constant %s: resolution too deep" % name)
+        if name in mod.assigns:
+            v = mod.assigns[name]
+            if isinstance(v, ast.Name):
+                return resolve(mod, v.id, depth + 1)
+            try:
+                return ast.literal_eval(v)
+            except Exception:
+                return None
+        imp = mod.imports.get(name)
+        if imp and imp[0] == "object":
+            return resolve(prog.module(imp[1]), imp[2], depth + 1)
+        return None
+
+    class _C(dict):
+        def get(self, k, d=None):
+            return resolve(cur[0], k)
+    cur = [m]
+    consts = _C()
+    res = consts.get("_resolutions")
+    if not isinstance(res, list) or len(res) != 5:
+        raise AnalysisError("_resolutions table not found")
+    n = 0
+    mods = [m, prog.module("quantarhei.spectroscopy.twodcontainer")]
+    for mod in mods:
+        prog.consulted.add(mod.relpath)
+        cur[0] = mod
+        for fn in [f for c in mod.classes.values() for f in c.methods.values()] + list(mod.functions.values()):
+            for cmp_ in [x for x in ast.walk(fn.node) if isinstance(x, ast.Compare) and len(x.ops) == 1
+                         and isinstance(x.ops[0], (ast.Eq, ast.NotEq))]:
+                l, r = cmp_.left, cmp_.comparators[0]
+                for a, b in ((l, r), (r, l)):
+                    if norm(a).endswith("storage_resolution") or norm(a) in ("resolution", "storage_res"):
+                        if isinstance(b, ast.Constant) and isinstance(b.value, str):
+                            v = b.value
+                        elif isinstance(b, ast.Name) and isinstance(consts.get(b.id), str):
+                            v = consts.get(b.id)
+                        else:
+                            continue
+                        n += 1
+                        run.obligation(rid, fn.short, v in res, key="resolution-name:%s:%s" % (norm(cmp_)[:50], v),
+                                       message="%s compares the storage resolution with %r, which is not one of %s: the branch "
+                                               "is never taken" % (fn.short, v, res), loc=fn.loc(cmp_), sample={"compare": norm(cmp_), "value": v})
+    if n < 20:
+        raise AnalysisError("only %d comparisons of the storage resolution with a constant found (20 confirmed)" % n)
+
+
+def rule_K(run, prog, m):
+    """A view of the response is handed out as a spectrum object that says which view it is: get_TwoDSpectrum passes the
+    requested type to the call that stores the data in the new spectrum (set_data without it resets the type to the
+    total signal).  And neither adding data nor taking a view changes which data a later plain read returns: a method
+    that switches the data flag to address one cell saves the flag first and restores it in a finally clause."""
+    from ..loader import parents_map
+    rid = "C19-K"
+    cls = prog.cls(T2 + ".TwoDResponse")
+    f = cls.methods["get_TwoDSpectrum"]
+    prog.consulted.add(f.relpath)
+    par = f.node.args.args[1].arg
+    calls = [n for n in ast.walk(f.node) if isinstance(n, ast.Call) and call_name(n) == "set_data"]
+    if len(calls) != 1:
+        raise AnalysisError("get_TwoDSpectrum: set_data call not found")
+    c = calls[0]
+    passed = [norm(k.value) for k in c.keywords if k.arg == "dtype"] + [norm(a) for a in c.args[1:2]]
+    run.obligation(rid, f.short, passed == [par], key="view-type-forwarded",
+                   message="get_TwoDSpectrum stores the data of the requested view with set_data(...) without the type: the "
+                           "spectrum handed out for the rephasing or non-rephasing view says it is the total signal",
+                   loc=f.loc(c), sample={"call": norm(c)[:80]})
+    # flag discipline
+    base = prog.cls(T2 + ".TwoDSpectrumBase")
+    n = 0
+    for cl, names in ((base, ("_add_data",)), (cls, ("get_TwoDSpectrum",))):
+        for nme in names:
+            fn = cl.methods[nme]
+            n += 1
+            pm = parents_map(fn.node)
+            sets = [x for x in ast.walk(fn.node) if isinstance(x, ast.Call) and norm(x.func) == "self.set_data_flag"]
+            helper_sets = []
+            for x in ast.walk(fn.node):
+                if isinstance(x, ast.Call) and isinstance(x.func, ast.Attribute) and norm(x.func.value) == "self" \
+                        and x.func.attr in cl.methods and x.func.attr != "set_data_flag":
+                    h = cl.methods[x.func.attr]
+                    if any(isinstance(y, ast.Call) and norm(y.func) == "self.set_data_flag" for y in ast.walk(h.node)):
+                        helper_sets.append(x)
+            saved = {norm(t_) for x in ast.walk(fn.node) if isinstance(x, ast.Assign) for t_ in x.targets
+                     if isinstance(t_, ast.Name) and "self.current_dtype" in norm(x.value)}
+            ok = True
+            why = ""
+            for x in sets + helper_sets:
+                if x in sets and norm(x.args[0]) in saved:
+                    continue       # the restoring call itself
+                # must sit in the body of a try whose finally restores a saved flag
+                node, prot = x, False
+                while node is not None and node is not fn.node:
+                    p_ = pm.get(node)
+                    if isinstance(p_, ast.Try) and any(node is b or any(node is y for y in ast.walk(b)) for b in p_.body):
+                        if any(isinstance(y, ast.Call) and norm(y.func) == "self.set_data_flag" and norm(y.args[0]) in saved
+                               for b in p_.finalbody for y in ast.walk(b)):
+                            prot = True
+                    node = p_
+                if not prot:
+                    ok = False
+                    why = norm(x)[:60]
+            if not (sets or helper_sets):
+                raise AnalysisError("%s no longer switches the data flag" % fn.short)
+            run.obligation(rid, fn.short, ok, key="flag-restored",
+                           message="%s switches the data flag (%s) and does not restore it in a finally clause: the next plain read "
+                                   "(data, get_max_value, the pump-probe spectrum) returns the cell addressed last instead of what "
+                                   "it returned before" % (fn.short, why), loc=fn.loc(fn.node), sample={"switches": len(sets) + len(helper_sets)})
 
 def _fold(m, node, env):
     if isinstance(node, ast.Constant):
@@ -503,7 +696,7 @@ def rule_C(run, prog, m):
                    message="a plain read must address storage[current_dtype] (or storage[total])",
                    loc="%s:%d" % (m.relpath, getter.lineno))
     # branches of _add_data: resolution A -> (required class, tag requirement)
-    add = prog.func(T2 + ".TwoDSpectrumBase._add_data")
+    add, _ = protocol_body(prog, prog.cls(T2 + ".TwoDSpectrumBase"), "_add_data")
     chain = [n for n in add.node.body if isinstance(n, ast.If) and norm(n.test).startswith("resolution == ")]
     if len(chain) != 1:
         raise AnalysisError("_add_data: dispatch on the added resolution not found")
